@@ -88,6 +88,16 @@ let eval (op : string) (args : sx list) : sx list =
   | "alias_table", [n; sp; i] ->
     let (b, r) = alias_table (z_of_sx n) (z_of_sx sp) (z_of_sx i) in
     [A "ok"; L (List.map sx_of_z b); L (List.map sx_of_z r)]
+  | "plan_delete", [_; _; s; L rr; e] ->
+    sx_of_out (fun r -> [L [sx_of_seq r]]) (plan_delete (seq_of_sx s) (List.map region_of_sx rr) (bool_of_sx e))
+  | "plan_insert", [_; _; _; s; L rr; g; e] ->
+    sx_of_out (fun r -> [L [sx_of_seq r]]) (plan_insert (seq_of_sx s) (List.map region_of_sx rr) (seq_of_sx g) (bool_of_sx e))
+  | "plan_rotate", [_; _; s; L rr] ->
+    sx_of_out (fun r -> [L [sx_of_seq r]]) (plan_rotate (seq_of_sx s) (List.map region_of_sx rr))
+  | "plan_split", [_; _; s; L rr; c] ->
+    sx_of_out (fun rs -> [L (List.map sx_of_seq rs)]) (plan_split (seq_of_sx s) (List.map region_of_sx rr) (bool_of_sx c))
+  | "plan_extract", [_; _; s; L rr; v] ->
+    sx_of_out (fun rs -> [L (List.map sx_of_seq rs)]) (plan_extract (seq_of_sx s) (List.map region_of_sx rr) (bool_of_sx v))
   | "cache_hist", [L h] ->
     let one = function L [i; k; ok; tf] -> (((z_of_sx i, z_of_sx k), bool_of_sx ok), bool_of_sx tf) | _ -> failwith "step expected" in
     [A "ok"; L (List.map sx_of_z (entry_counts (List.map one h)))]
